@@ -187,6 +187,25 @@ Theorem C06_missing_tail_rejected : forall d old written rest,
 Proof. exact this_run_detects_missing_tail. Qed.
 Print Assumptions C06_missing_tail_rejected.
 
+(* At ANY moment (every state an execution reaches, not only after Run returned - any instant at which
+   the process may be stopped), for every destination kind: the encodings of the accepted samples are
+   what reached the destination, then what is buffered, then what is queued; so the destination holds
+   its earlier content followed by a PREFIX of this run's lines in queue order (nothing foreign, twice
+   or out of order), and so does a destination that accepted n bytes and then failed every write. *)
+Theorem C06_written_is_prefix_always : forall (A : Type) (enc : A -> option (list N)) (k : kind) (Q : nat) d old h s n,
+  run A enc k Q (init A) h = Some s ->
+  reports_first A false h = true ->
+  Forall (enc_ok A enc) (reports_of A h) ->
+  enc_all A enc (acc_log s) = sink s ++ buf s ++ enc_all A enc (queue s)
+  /\ (exists rest, opened d old ++ enc_all A enc (acc_log s) = content d old s ++ rest)
+  /\ prefix_b (failing n (sink s)) (enc_all A enc (acc_log s)) = true.
+Proof. exact written_is_prefix_always. Qed.
+Print Assumptions C06_written_is_prefix_always.
+
+Theorem C06_prefix_spec : forall p l, prefix_b p l = true -> exists r, l = p ++ r.
+Proof. exact prefix_b_sound. Qed.
+Print Assumptions C06_prefix_spec.
+
 (* which destination a phout configuration denotes: no `destination` = the shared stream *)
 Theorem C06_phout_dest : phout_dest [] = DStream /\ forall c r, phout_dest (c :: r) = DFile.
 Proof. exact phout_dest_default. Qed.
